@@ -418,6 +418,42 @@ pub fn run(rep: &Report) {
         char_level_chunk(chosen[bi], chunk, 16, l);
     });
     rep.scope_done(json!({"scope": format!("character-level sweep on {} bases: every position x 72 substitutes, every deletion, every insertion", chosen.len()), "evaluations": rep.evals() - before, "jwt_lengths": chosen.iter().map(|b| b.parts.jwt.len()).collect::<Vec<_>>()}));
+    if !rep.quick() {
+        // thorough: every PAIR of substitutions at positions at most 2 apart, over the 64 base64url characters,
+        // on one base per (alg, format, kb)
+        let pair_bases: Vec<&Base> = bs.iter().filter(|b| b.id % 3 == 2).collect();
+        let before = rep.evals();
+        let mut work: Vec<(usize, usize)> = vec![];
+        for (bi, b) in pair_bases.iter().enumerate() {
+            for pos in 0..b.parts.jwt.len() {
+                work.push((bi, pos));
+            }
+        }
+        par_for(rep, work.len(), |w, l| {
+            let (bi, i) = work[w];
+            let b = pair_bases[bi];
+            let key = keys::issuer_dec(b.cfg.alg, 0);
+            let jwt: Vec<char> = b.parts.jwt.chars().collect();
+            let b64: Vec<char> = SUBST.chars().take(64).collect();
+            for j in (i + 1)..(i + 3).min(jwt.len()) {
+                for &c1 in &b64 {
+                    if c1 == jwt[i] {
+                        continue;
+                    }
+                    for &c2 in &b64 {
+                        if c2 == jwt[j] {
+                            continue;
+                        }
+                        let mut m = jwt.clone();
+                        m[i] = c1;
+                        m[j] = c2;
+                        must_reject(b, &m.iter().collect::<String>(), &format!("subst2:{i}:{c1}:{j}:{c2}"), key.clone(), l);
+                    }
+                }
+            }
+        });
+        rep.scope_done(json!({"scope": format!("pairs of substitutions at distance <= 2 over the base64url alphabet on {} bases", pair_bases.len()), "evaluations": rep.evals() - before}));
+    }
     rep.sample(json!({"base": chosen[0].cfg.to_json(), "mutation": "subst:17:Q", "jwt_prefix": &chosen[0].parts.jwt[..40], "expect": "Err"}));
     rep.sample(json!({"base": bs[5].cfg.to_json(), "mutation": "alg:\"HS256\":hmac_with_public_pem", "expect": "Err"}));
     if rep.outcome_count("control_accepted") == 0 || rep.outcome_count("tampered_rejected") == 0 {
